@@ -68,7 +68,9 @@ def affine_transform(matrix: npt.ArrayLike | None = None, offset: npt.ArrayLike 
     n = 2
     dtype = np.int_
 
-    if not np.isscalar(offset):
+    if np.isscalar(offset):
+        dtype = np.result_type(offset)
+    else:
         offset = np.asarray(offset)
         n = offset.shape[0] + 1
         dtype = offset.dtype
